@@ -9,6 +9,24 @@ from lxml.builder import ElementMaker
 from space_packet_parser import packets
 
 
+
+def xs_boolean(text: str) -> bool:
+    """Interpret the lexical form of an xs:boolean attribute.
+
+    XML Schema allows `true`, `false`, `1` and `0` (with optional surrounding whitespace).
+    The words are accepted in any letter case.
+
+    Parameters
+    ----------
+    text : str
+        Attribute text
+
+    Returns
+    -------
+    : bool
+    """
+    return text.strip().lower() in ('true', '1')
+
 class NamespaceAwareElement(ElementTree.ElementBase):
     """Custom element that automatically applies namespace mappings."""
 
